@@ -248,6 +248,11 @@ func runLint(runner *Runner, rslv resolver.Resolver) error {
 		}
 	}
 
+	// In JSON mode a syntax error is reported in the result, it must fail like in plain mode
+	if len(result.ParseErrors) > 0 {
+		return ErrExit
+	}
+
 	write(red, ":fire:%d errors, ", result.Errors)
 	write(yellow, ":exclamation:%d warnings, ", result.Warnings)
 	writeln(cyan, ":speaker:%d recommendations.", result.Infos)
